@@ -220,6 +220,40 @@ def _sorted_search_called_nonempty(ctx: Ctx):
     return True, "sorted_search is only called from do_find, under any(...) over the same list"
 
 
+@cond("resolvers_registered")
+def _resolvers_registered(ctx: Ctx):
+    """'sid' is registered by the configuration loader at module level; every PathConfig registers its own name"""
+    m = ctx.p.module("spil.conf.sid_conf_load")
+    sid_reg = False
+    for st in m.toplevel:
+        if isinstance(st, (ast.FunctionDef, ast.ClassDef)):
+            continue
+        for n in ast.walk(st):
+            if isinstance(n, ast.Call) and (dotted(n.func) or "").split(".")[-1] == "Resolver" and n.args \
+                    and isinstance(n.args[0], ast.Constant) and n.args[0].value == "sid":
+                sid_reg = True
+    if not sid_reg:
+        return False, "spil.conf.sid_conf_load no longer registers Resolver('sid', ...) at import"
+    init = ctx.p.function("spil.sid.pathops.pathconfig.PathConfig.__init__")
+    reg = any(isinstance(n, ast.Call) and (dotted(n.func) or "").split(".")[-1] == "Resolver" and n.args and norm(n.args[0]) == "self.name"
+              for n in own_nodes(init.node))
+    if not reg:
+        return False, "PathConfig.__init__ no longer registers Resolver(self.name, ...)"
+    # the readers ask for exactly these ids
+    for q, want in (("spil.sid.core.sid_resolver.sid_to_dict", "'sid'"), ("spil.sid.core.sid_resolver.dict_to_sid", "'sid'"),
+                    ("spil.sid.core.sid_resolver.dict_to_type", "'sid'"), ("spil.sid.core.sid_resolver.sid_to_dicts", "'sid'")):
+        f = ctx.p.function(q)
+        for n in own_nodes(f.node):
+            if isinstance(n, ast.Call) and (dotted(n.func) or "").endswith("Resolver.get") and n.args and norm(n.args[0]) != want:
+                return False, f"{f.short} asks for Resolver.get({norm(n.args[0])}), which nothing registers"
+    for q in ("spil.sid.pathops.fs_resolver.path_to_dict", "spil.sid.pathops.fs_resolver.dict_to_path"):
+        f = ctx.p.function(q)
+        for n in own_nodes(f.node):
+            if isinstance(n, ast.Call) and (dotted(n.func) or "").endswith("Resolver.get") and n.args and not norm(n.args[0]).endswith(".name"):
+                return False, f"{f.short} asks for Resolver.get({norm(n.args[0])}), not for the PathConfig's own name"
+    return True, "Resolver('sid', ..) at configuration load; Resolver(self.name, ..) in PathConfig.__init__; readers ask for these ids"
+
+
 @cond("factory_resolves")
 def _factory_resolves(ctx: Ctx):
     sid = ctx.p.cls("spil.sid.sid.Sid")
